@@ -412,6 +412,9 @@ class Lib:
             if m == 'value':
                 return '(*%s_value(%s))' % (inner.c, o)
             if m == 'value_or':
+                lit = self._strlit(args[0])
+                if lit is not None and inner.c in ('opt_str_t', 'opt_sv_t'):
+                    return '%s_value_or(%s, %s)' % (inner.c, o, self.sv_literal(em, lit))
                 return '%s_value_or(%s, %s)' % (inner.c, o, em.e(args[0]))
             if m == 'reset':
                 return '((%s)->has = 0)' % o
